@@ -217,6 +217,12 @@ func c16Monitor(in c16In, code int, id string, panicked any) (ok bool, msg strin
 	if in.Strict && sniStage && in.Host != "" && hasCli && cli != in.Host && !hasSNICand && code == 0 {
 		return false, "strict check accepted a name outside the configured one"
 	}
+	// Plain-HTTP DoH: a Host header with too many colons is an error of the
+	// request, not "no name".
+	if p == proxy.ProtoHTTPS && in.HasReq && !in.HasTLS && pathPlain && in.Host != "" &&
+		c16TwoColonsRe.MatchString(in.HostHdr) && code == 0 {
+		return false, "malformed Host header (host:port:port) did not fail the plain-HTTP request"
+	}
 	// Attribution: a valid label in the path, or (when the path has none) in
 	// front of the configured name, is the ClientID, lower-cased.
 	if hasPathCand && c16AnyLabelRe.MatchString(pathCand) && (code != 0 || id != strings.ToLower(pathCand)) {
